@@ -5,8 +5,8 @@ CONSTANTS Depth = 20
           MaxSize = 18
           BitmapSize = 34
           Ids = {1, 2, 3, 4, 5}
-          Exts <- ExtsSmall
-          Filters = {0, 1, 2, 33, 17}
+          Exts <- ExtsSim
+          Filters = {0, 1, 2, 33, 17, 45, 3}
           Limits = {0, 3}
           Tails = {3, 5}
 INVARIANTS DbWellFormed SetSemantics WriterConsistent SessionSemantics RoundTrip ReadCorrect IterCorrect FilterSound PruneSafeAll
